@@ -414,6 +414,7 @@ class AsyncClient(base_client.BaseClient):
                 raise exceptions.ConnectionError(
                     'Invalid OPEN packet returned by server') from None
             self.current_transport = 'websocket'
+            self.ws = ws
 
             self.state = 'connected'
             base_client.connected_clients.append(self)
